@@ -172,7 +172,7 @@ Print Assumptions c10_columns_written_once.
    an SRv6 segment list (the complete segments), through TCP options or behind the first two bytes of an ICMP header
    (the fixed part is enough), and a cut behind the last header.
    For every well-formed frame f and EVERY n: the capture is dissected without error; every column other than the
-   ethertype, the VLAN id (they report the last tag seen) and the two layer lists
+   ethertype, the VLAN id (they report the last tag seen: last clause) and the two layer lists
      - equals the value the COMPLETE frame gives it, or
      - is unset, or
      - (MPLS labels, MPLS TTLs, SRv6 segments of a stack / list the capture cuts through) is a prefix of the complete
@@ -195,7 +195,11 @@ Theorem c10_any_capture_length : forall f n, wf_frame f = true ->
     (forall j k, (j <= length (frame_chain f))%nat ->
        (length (concat (map lhdr (firstn j (frame_chain f)))) <= length (firstn n (encode_frame f)))%nat ->
        In k (fkeys (applied false (firstn j (frame_chain f)))) ->
-       alookup (cols m) k = alookup (cols (ref_frame f)) k).
+       alookup (cols m) k = alookup (cols (ref_frame f)) k) /\
+    (* ... and the two columns several headers write -- the ethertype and the VLAN id -- are unset or carry a TRUE
+       ethertype field / VLAN tag of the frame (of a header in front of the IP header: tag_val, etypes) *)
+    (forall k, k = cEtype \/ k = cVlanId ->
+       alookup (cols m) k = None \/ exists v, alookup (cols m) k = Some v /\ tag_val f k v).
 Proof. exact any_cut. Qed.
 Print Assumptions c10_any_capture_length.
 
@@ -230,9 +234,11 @@ Example c10_any_capture_nonvacuous :
             alookup (cols m) cSrcAddr = None /\
             (* the Ethernet header lies completely inside the capture: its columns are there, with the frame's values *)
             alookup (cols m) cSrcMac = Some (VI (fSrc f)) /\ alookup (cols m) cDstMac = Some (VI (fDst f)) /\
-            In cSrcMac (fkeys (applied false (firstn 1 (frame_chain f))))
+            In cSrcMac (fkeys (applied false (firstn 1 (frame_chain f)))) /\
+            (* the ethertype reported is the one in front of the label stack (0x8847), a true ethertype field of the frame *)
+            alookup (cols m) cEtype = Some (VI 34887) /\ In 34887 (etypes f)
   | _ => False end.
-Proof. vm_compute. repeat split; auto. Qed.
+Proof. vm_compute. repeat split; auto 10. Qed.
 
 Example c10_any_capture_nonvacuous_srv6 :
   let f := gcase gen_frame 1 11 in
@@ -253,7 +259,7 @@ From GF Require Import Proofs.SFlowE2E.
 Theorem c10_ipfix_frame_section_any_length : forall f n m0 base up,
   wf_frame f = true -> base_ok m0 ->
   exists m1, parse_packet empty_pcfg m0 (firstn n (encode_frame f)) = Ok m1 /\ cols_ok m0 m1 f /\ layers_ok m1 f /\
-    complete_ok m0 m1 f (length (firstn n (encode_frame f))) /\
+    complete_ok m0 m1 f (length (firstn n (encode_frame f))) /\ tags_ok m0 m1 f /\
     nf_field empty_prodcfg 10 base up m0 315 (firstn n (encode_frame f)) =
     Ok (let m2 := msetI m1 cPackets 1 in if mgetI m2 cBytes =? 0 then msetI m2 cBytes (lenN (firstn n (encode_frame f))) else m2).
 Proof. exact ipfix_frame_section_cut. Qed.
